@@ -2,7 +2,7 @@
 import z3
 
 from pyvc.contract import Contract
-from pyvc.engine import LoopSpec, SymSeq, GenResult, Obj, Sym, Builtin, named, INT, BOOL, STR
+from pyvc.engine import LoopSpec, SymSeq, GenResult, Obj, Sym, Builtin, named, fresh, INT, BOOL, STR
 from pyvc import blocks, stubs, externals
 
 PROP = 'C05'
@@ -137,7 +137,13 @@ FG = 'singlecellmultiomics/universalBamTagger/tagging.py'
 def rtt_setup(eng):
     from pyvc import externals, stubs
     from pyvc.engine import Obj, fresh, PyRaise, Sym
-    externals.EXTRA['pysam.AlignmentFile'] = lambda e, a, k, n: stubs.alignment_file(e, lambda *x: None)
+    def count(e, o, *a, **k):
+        c = fresh(INT, 'records_overlapping_the_bin')      # any number, zero included: a bin may own sites no read overlaps
+        e.assume(c.z >= 0)
+        return c
+    externals.EXTRA['pysam.AlignmentFile'] = lambda e, a, k, n: stubs.alignment_file(e, lambda *x: None, {'count': count})
+    eng.ghost['ran'] = 0
+    eng.spec_env['GHOST'] = eng.ghost
     externals.EXTRA['os.path.exists'] = lambda e, a, k, n: False
     externals.EXTRA['uuid.uuid4'] = lambda e, a, k, n: 'uuid'
     externals.EXTRA['os.remove'] = lambda e, a, k, n: None
@@ -158,6 +164,7 @@ def rtt_setup(eng):
         t = fresh(BOOL, 'timeout')
         e.spec_env['LAST_WRITTEN'] = w
         e.spec_env['LAST_TIMEOUT'] = t
+        e.ghost['ran'] = e.ghost['ran'] + 1
         if e.branch(t.z):
             raise PyRaise('TimeoutError')
         return {'total_molecules_written': w, 'time_start': None}
@@ -167,7 +174,13 @@ def rtt_setup(eng):
 def rtt_args(eng, name):
     from pyvc import stubs
     from pyvc.engine import Obj
-    tasks = stubs.ObjSeq(lambda e, nm: {'contig': named(STR, nm + '.contig')}, 'tasks')
+    def task(e, nm):
+        d = {'contig': named(STR, nm + '.contig')}
+        if e.branch(fresh(BOOL, 'region_task').z):      # a bin of the region tiling: owner interval and fetch window
+            d.update({'start': named(INT, nm + '.start'), 'end': named(INT, nm + '.end'),
+                      'fetch_start': named(INT, nm + '.fetch_start'), 'fetch_end': named(INT, nm + '.fetch_end')})
+        return d
+    tasks = stubs.ObjSeq(task, 'tasks')
     return (('in.bam', '/tmp/x', None), tasks)
 
 
@@ -176,7 +189,11 @@ run_tagging_tasks = Contract(
     params={'args': rtt_args},
     setup=rtt_setup,
     loops={1: LoopSpec(      # loop 0 is the `while os.path.exists(target_file)` name-collision loop
-        inv={'count_is_nonnegative': 'total_molecules >= 0'},
+        head_hook=lambda eng, fr: eng.spec_env.update({'LAST_TIMEOUT': True, 'LAST_WRITTEN': 0}),      # nothing ran yet in this iteration
+        inv={'count_is_nonnegative': 'total_molecules >= 0',
+             # whatever a bin looks like from outside (no read overlapping it ...), its task is run: only the task knows
+             # which molecules it owns
+             'every_task_so_far_was_run': 'GHOST["ran"] == k'},
         types={'timeout_tasks': 'frame', 'read_groups': 'frame', 'statistics': 'frame'},
         body_post={'total_accumulates_every_task': 'total_molecules == head(total_molecules, 1) + '
                                                    '(0 if LAST_TIMEOUT else LAST_WRITTEN)'})},
